@@ -499,6 +499,13 @@ func c09ScenarioList() []c09Scenario {
 		{name: "sql held: DELETE t,u|INC u", tables: two, sql: true, revToo: true, counter: "u", heldFrom: 2, noCounter: true, bodies: func(d string) []func(*fsx.Proc) {
 			return sqlBodies(d, "DELETE t, u FROM t JOIN u ON t.n < 0; SELECT 1;", "UPDATE u SET n = n + 1;")
 		}},
+		// a read-only statement on the held table's file through an inline table function must not give the hold away
+		{name: "sql held: INC t, inline read of t.csv|INC t", tables: one, sql: true, heldFrom: 2, bodies: func(d string) []func(*fsx.Proc) {
+			return sqlBodies(d, "UPDATE t SET n = n + 1; SELECT COUNT(*) FROM CSV_INLINE(',', `"+d+"/t.csv`); SELECT 1;", "UPDATE t SET n = n + 1;")
+		}},
+		{name: "sql held: SELFU t, table function and inline reads of t.csv|INC t", tables: one, sql: true, heldFrom: 2, noCounter: true, thoroughOnly: true, bodies: func(d string) []func(*fsx.Proc) {
+			return sqlBodies(d, "SELECT n FROM t FOR UPDATE; SELECT COUNT(*) FROM CSV(',', `t.csv`) x; SELECT COUNT(*) FROM CSV_INLINE(',', `"+d+"/t.csv`); SELECT 1;", "UPDATE t SET n = n + 1;")
+		}},
 		{name: "sql held: INSERT t|INC t", tables: one, sql: true, heldFrom: 2, noCounter: true, thoroughOnly: true, bodies: func(d string) []func(*fsx.Proc) {
 			return sqlBodies(d, "INSERT INTO t VALUES (100); SELECT 1;", "UPDATE t SET n = n + 1;")
 		}},
